@@ -403,6 +403,53 @@ func (res *Result) validateChunk(f *File, gi, ci int, cd *ChunkData, ex Expect) 
 		n := len(data)
 		if len(ci2.NullPages) != n || len(ci2.MinValues) != n || len(ci2.MaxValues) != n || (ci2.HasNullCounts && len(ci2.NullCounts) != n) {
 			res.bad("column_index.lengths", "%s: %d data pages but null_pages=%d min_values=%d max_values=%d null_counts=%d", where, n, len(ci2.NullPages), len(ci2.MinValues), len(ci2.MaxValues), len(ci2.NullCounts))
+		} else if data != nil {
+			// the counts the page index records per page: nulls and the level histograms
+			if ci2.HasNullCounts {
+				res.seen("column_index.page_null_counts")
+				for pi := range data {
+					nulls := 0
+					for _, e := range data[pi].Entries {
+						if e.Null {
+							nulls++
+						}
+					}
+					if ci2.NullCounts[pi] != int64(nulls) {
+						res.bad("column_index.page_null_counts", "%s: column index null_counts[%d]=%d, the page holds %d nulls", where, pi, ci2.NullCounts[pi], nulls)
+						break
+					}
+				}
+			}
+			for _, h := range []struct {
+				name string
+				has  bool
+				vals []int64
+				max  int
+				get  func(Entry) int
+			}{{"repetition", ci2.HasRepHist, ci2.RepHist, leaf.MaxRep, func(e Entry) int { return e.R }}, {"definition", ci2.HasDefHist, ci2.DefHist, leaf.MaxDef, func(e Entry) int { return e.D }}} {
+				if !h.has || len(h.vals) == 0 {
+					continue
+				}
+				res.seen("column_index.page_" + h.name + "_histograms")
+				if len(h.vals) != n*(h.max+1) {
+					res.bad("column_index.page_"+h.name+"_histograms", "%s: %s_level_histograms has %d entries for %d pages x %d levels", where, h.name, len(h.vals), n, h.max+1)
+					continue
+				}
+			pages:
+				for pi := range data {
+					want := make([]int64, h.max+1)
+					for _, e := range data[pi].Entries {
+						want[h.get(e)]++
+					}
+					got := h.vals[pi*(h.max+1) : (pi+1)*(h.max+1)]
+					for k := range want {
+						if want[k] != got[k] {
+							res.bad("column_index.page_"+h.name+"_histograms", "%s page %d: %s level histogram %v, the page holds %v", where, pi, h.name, got, want)
+							break pages
+						}
+					}
+				}
+			}
 		}
 	}
 	// size statistics
